@@ -415,7 +415,9 @@ def execute(sp, binp, root, idx):
     reported = [(os.path.basename(a), int(b), int(c)) for a, b, c in MISSING_RE.findall(out1)]
     fmt = report_formats()
     if inscope:
-        if (rc1 != 0) != (M > 0):
+        # with a file that cannot be read as text in the tree the exit status of an otherwise clean run is not pinned down by the properties
+        # (reported and skipped, C17; "could not process a file" is a defensible non-zero): only "missing => non-zero" is demanded then
+        if ((rc1 != 0) != (M > 0)) and not (tree.bad and M == 0):
             ob.bad("C05,C17" if tree.bad else "C05", "--check exits %s with %d statement(s) lacking a reference" % (rc1, M))
         if fmt["missing"] and len(reported) != M:
             ob.bad("C05", "--check reports %d missing reference(s), the tree has %d" % (len(reported), M))
@@ -479,7 +481,8 @@ def execute(sp, binp, root, idx):
     snap2 = snapshot(proj)
     if os.listdir(tmpd):
         ob.bad("C08", "the edit run (exit %s) left files in the temporary directory: %s" % (rc2, os.listdir(tmpd)[:3]))
-    if inscope and not exhausted and not boundary and rc2 != 0:
+    must_process = bool(inscope) and not exhausted and not boundary
+    if must_process and rc2 != 0 and not tree.bad:
         ob.bad("C08,C15,C16,C17", "edit run exits %s on a tree it can fully process: %s" % (rc2, out2[-200:]))
     if exhausted and rc2 == 0:
         ob.bad("C01", "the ID range is exhausted (first free ID %d, %d needed) but the edit run exits 0" % (start, M))
@@ -522,10 +525,11 @@ def execute(sp, binp, root, idx):
             if rel2 != rel:
                 continue
             mref, kvref, seg = read_ref(new, st.marker)
-            if st.kind == "A" and rc2 == 0:
+            if st.kind == "A" and (rc2 == 0 or (tree.bad and must_process)):
+                # (with an unreadable file in the tree the readable ones must still be processed, whatever the exit status: C17)
                 got = kvref if structured else ([mref] if mref is not None else [])
                 if len(got) != 1:
-                    ob.bad("C08,C15,C17" if not got else "C03,C13", "edit run exits 0 but statement %s in %s has %d reference(s)" % (st.marker, rel, len(got)), file_after=new)
+                    ob.bad("C08,C15,C17" if not got else "C03,C13", "edit run exits %s but statement %s in %s has %d reference(s)" % (rc2, st.marker, rel, len(got)), file_after=new)
                 elif structured:
                     mm = re.match(r'^!\(\s*(target: "[^"]*",\s*)?ref = \d+(; |, )', seg)
                     if not mm:
@@ -586,8 +590,12 @@ def execute(sp, binp, root, idx):
         ch = [k for k in snap2 if k != LOCK and (snap4.get(k) or ())[:2] != snap2[k][:2]]
         if ch:
             ob.bad("C06", "a second edit run changed %s" % sorted(ch)[:3])
-        if cache_on and (snap4.get(LOCK) or ())[:2] != (snap2.get(LOCK) or ())[:2]:
-            ob.bad("C06", "a second edit run changed the lock file")
+        def _lockval(sn):
+            e = sn.get(LOCK)
+            mm = re.search(r"next_reference_id: (\d+)", e[1].decode("utf-8", "replace")) if e and e[0] == "file" else None
+            return int(mm.group(1)) if mm else None
+        if cache_on and _lockval(snap4) != _lockval(snap2):
+            ob.bad("C06", "a second edit run changed the lock value from %s to %s" % (_lockval(snap2), _lockval(snap4)))
     return ob
 
 
